@@ -44,6 +44,7 @@ TOpData ==
             [] E.op = "open" /\ E.creat ->
                  IF fst[E.j].st = "orphan" /\ ~Ok THEN UNCHANGED <<vars, ovars>> /\ Adv     \* exclusive create: the name is taken
                  ELSE IF fst[E.j].st \notin {"none", "orphan"} THEN Refuse("pub-created-a-tmp-file-that-exists")
+                 ELSE IF pst.st # "final" THEN Refuse("pub-data-file-created-in-a-channel-without-published-properties")
                  ELSE CreateTmp(E.j, Ok) /\ Adv /\ UNCHANGED ovars
             [] E.op \in {"pwrite", "write", "ftruncate"} ->
                  IF fst[E.j].st = "orphan" THEN Refuse("pub-wrote-to-a-tmp-file-of-a-dead-session")
@@ -163,7 +164,8 @@ TSnap ==
         <<"C02-properties-file-state", (E.props = "ok") # (pst.st = "final")>>})
       \cup FileNotes(E.files)
       \cup (IF E.tag = "end" THEN
-              LET dn == Canon(UNION {ToSet(NewObs(E.files)[j].data) : j \in Finals}) IN EndNotes(dn)
+              \* (what the final files hold is readable only through a channel whose properties file is there)
+              LET dn == IF E.props = "ok" THEN Canon(UNION {ToSet(NewObs(E.files)[j].data) : j \in Finals}) ELSE <<>> IN EndNotes(dn)
             ELSE {}))
 
 \* a reader pass: never fails, sees exactly the finalized files, never less than before
